@@ -150,3 +150,184 @@ fn cmp_fs() {
     }));
     report(r);
 }
+
+// ---------------------------------------------------------------------------------------------
+// size table / seek / read of the normal reader on tables chosen by the solver
+// ---------------------------------------------------------------------------------------------
+fn table_from_env() -> (Vec<u32>, u32) {
+    let k = v_u64("k", 1) as usize;
+    let vals = [v_u64("a", 1) as u32, v_u64("b", 1) as u32, v_u64("c", 1) as u32];
+    (vals[..k.min(3)].to_vec(), v_u64("last", 1) as u32)
+}
+fn reader_over(table: Vec<u32>, last: u32, inner_len: usize) -> CompressionLayerReader<'static, Cursor<Vec<u8>>> {
+    let inner = Box::new(RawLayerReader::new(Cursor::new(vec![0u8; inner_len])));
+    let mut r = CompressionLayerReader::new(inner).unwrap();
+    r.sizes_info = Some(SizesInfo { compressed_sizes: table, last_block_size: last });
+    r
+}
+
+#[test]
+fn cmp_sizes() {
+    let (t, last) = table_from_env();
+    let pos = v_u64("pos", 0);
+    let r = catch_unwind(AssertUnwindSafe(|| -> Option<String> {
+        let k = t.len() as u64;
+        let si = SizesInfo { compressed_sizes: t.clone(), last_block_size: last };
+        let total = (k - 1) * BLOCK + u64::from(last);
+        if si.max_uncompressed_pos() != total {
+            return Some(format!("max_uncompressed_pos() = {}, layout says {total}", si.max_uncompressed_pos()));
+        }
+        let b = (pos / BLOCK) as usize;
+        let want = if (b as u64) + 1 < k { BLOCK as u32 } else { last };
+        if si.uncompressed_block_size_at(b) != want {
+            return Some(format!("uncompressed_block_size_at({b}) = {}, layout says {want}", si.uncompressed_block_size_at(b)));
+        }
+        match si.compressed_block_size_at(pos) {
+            Ok(c) if c == t[b] => {}
+            other => return Some(format!("compressed_block_size_at({pos}) = {other:?}, table says {}", t[b])),
+        }
+        if si.get_compressed_size() != t.iter().map(|v| u64::from(*v)).sum::<u64>() {
+            return Some("get_compressed_size() is not the sum of the table".to_string());
+        }
+        None
+    }));
+    report(r);
+}
+
+/// real streams: seek/read of the normal reader equal a cursor over the original data
+#[test]
+fn cmp_seek() {
+    let r = catch_unwind(AssertUnwindSafe(|| -> Option<String> {
+        // the solver's table only fixes the SHAPE (number of blocks, last block full or not); real
+        // compressed sizes come from real brotli
+        let (t, last) = table_from_env();
+        let k = t.len().max(1) as u64;
+        let last = u64::from(last).clamp(1, BLOCK);
+        let total = (k - 1) * BLOCK + last;
+        let data = data_of(total, 1);
+        let (comp, _) = compress_stream(&data, 1);
+        let mut rd = CompressionLayerReader::new(Box::new(RawLayerReader::new(Cursor::new(comp)))).unwrap();
+        rd.initialize().unwrap();
+        let mut reference = Cursor::new(&data[..]);
+        let mut checks: Vec<SeekFrom> = vec![SeekFrom::End(0), SeekFrom::End(-4), SeekFrom::Start(total), SeekFrom::Start(0), SeekFrom::Start(total - 1)];
+        if v_str("op", "start") == "start" {
+            checks.push(SeekFrom::Start(v_u64("p", 0).min(total)));
+        } else {
+            let cur = v_u64("cur", 0).min(total);
+            checks.push(SeekFrom::Start(cur));
+            let d = v_i64("d", 0);
+            checks.push(if v_u64("from_end", 0) == 1 { SeekFrom::End(d) } else { SeekFrom::Current(d) });
+            checks.push(SeekFrom::Current(0));
+        }
+        for sf in checks {
+            let want = reference.seek(sf).ok();
+            let got = rd.seek(sf);
+            match (want, got) {
+                (Some(w), Ok(g)) if w == g && w <= total => {
+                    let mut a = [0u8; 9];
+                    let mut b = [0u8; 9];
+                    let na = reference.read(&mut a).unwrap();
+                    let mut nb = 0;
+                    while nb < na {
+                        match rd.read(&mut b[nb..na]) {
+                            Ok(0) => break,
+                            Ok(x) => nb += x,
+                            Err(e) => return Some(format!("read after seek({sf:?}) failed: {e}")),
+                        }
+                    }
+                    if na != nb || a[..na] != b[..nb] {
+                        return Some(format!("bytes after seek({sf:?}) differ from the data at {w} ({nb} vs {na} bytes, stream of {total})"));
+                    }
+                }
+                (Some(w), Ok(g)) if w > total => {
+                    let _ = g;
+                }
+                (Some(w), other) if w <= total => return Some(format!("seek({sf:?}) on a {total}-byte stream ({k} blocks, last {last}) gave {other:?}, a cursor gives {w}")),
+                _ => {}
+            }
+        }
+        None
+    }));
+    report(r);
+}
+
+#[test]
+fn cmp_read() {
+    // sequential reading through block edges with the solver's buffer size
+    let r = catch_unwind(AssertUnwindSafe(|| -> Option<String> {
+        let (t, last) = table_from_env();
+        let k = t.len().max(1) as u64;
+        let last = u64::from(last).clamp(1, BLOCK);
+        let total = (k - 1) * BLOCK + last;
+        let data = data_of(total, 1);
+        let (comp, _) = compress_stream(&data, 1);
+        let mut rd = CompressionLayerReader::new(Box::new(RawLayerReader::new(Cursor::new(comp)))).unwrap();
+        rd.initialize().unwrap();
+        let c = v_u64("c_pos", 0).min(total);
+        // start a little before the solver's position so that the edge is crossed by plain reads
+        let from = c.saturating_sub(3);
+        rd.seek(SeekFrom::Start(from)).unwrap();
+        let blen = (v_u64("blen", 4) as usize).clamp(1, 8);
+        let mut out = Vec::new();
+        let mut buf = [0u8; 8];
+        while out.len() < 24 {
+            match rd.read(&mut buf[..blen]) {
+                Ok(0) => break,
+                Ok(n) => out.extend_from_slice(&buf[..n]),
+                Err(e) => return Some(format!("read at {} failed: {e}", from + out.len() as u64)),
+            }
+            let pos = rd.stream_position().unwrap();
+            if pos != from + out.len() as u64 {
+                return Some(format!("position {pos} after reading up to {}", from + out.len() as u64));
+            }
+        }
+        let want = &data[from as usize..(from as usize + 24).min(data.len())];
+        if out.len() < want.len() || out[..want.len()] != *want {
+            return Some(format!("sequential read from {from} across a block edge returned {} bytes, expected {} identical ones", out.len(), want.len()));
+        }
+        None
+    }));
+    report(r);
+}
+
+/// untrusted table + any operation: no panic
+#[test]
+fn cmp_total() {
+    let (t, last) = table_from_env();
+    let r = catch_unwind(AssertUnwindSafe(|| -> Option<String> {
+        let mut rd = reader_over(t.clone(), last, 1 << 16);
+        rd.underlayer_pos = v_u64("upos", 0);
+        if v_str("op", "seek") == "seek" {
+            let off = v_u64("off", 0);
+            let sf = match v_u64("which", 0) % 3 {
+                0 => SeekFrom::Start(off),
+                1 => SeekFrom::Current(off as i64),
+                _ => SeekFrom::End(off as i64),
+            };
+            let _ = rd.seek(sf);
+        } else {
+            let mut buf = [0u8; 4];
+            let blen = (v_u64("blen", 1) as usize).min(4);
+            let _ = rd.read(&mut buf[..blen]);
+            let _ = rd.seek(SeekFrom::Start(0));
+        }
+        None
+    }));
+    report(r);
+}
+
+#[test]
+fn cmp_init() {
+    let n = v_u64("n", 0).min(1 << 20) as usize;
+    let lenfield = v_u64("lenfield", 0) as u32;
+    let r = catch_unwind(AssertUnwindSafe(|| -> Option<String> {
+        let mut bytes = vec![0u8; n];
+        if n >= 4 {
+            bytes[n - 4..].copy_from_slice(&lenfield.to_le_bytes());
+        }
+        let mut rd = CompressionLayerReader::new(Box::new(RawLayerReader::new(Cursor::new(bytes)))).unwrap();
+        let _ = rd.initialize();
+        None
+    }));
+    report(r);
+}
